@@ -18,7 +18,7 @@ PROP = dict(
          "ranges (adaptive probe, D12), task blocks once the searches answer inside them (adaptive probe, D45)). Per file: "
          "two model cases (identifier search, innermost-node search) covering EVERY byte offset 0..=len+2, one case claiming "
          "the hypotheses of the identifier-search theorem for the parsed file (decided by the proven-sound executable check "
-         "wfB in the model; the hover-search nesting check only once F6 is repaired, adaptive probe); spec checks at "
+         "wfB in the model; the hover-search nesting check only once D60 is repaired, adaptive probe); spec checks at "
          "every byte offset: definition_at on a use = the generator's innermost visible declaration (file, range, text), "
          "definition_at outside identifiers = nothing, type_at on every typed position = the generator's type. "
          "distinct = distinct (file tree, search); non-trivial = the answer names at least one node",
@@ -47,7 +47,7 @@ PROP = dict(
                "typing (spec_fail), not proved; the hypotheses Nested/CutOK/Unique of the identifier-search theorem are "
                "properties of parser output: they are not proved for the parser but decided for every file of every run by an "
                "executable check whose soundness is a theorem (C35_search_spec_checked); the nesting hypothesis of the hover search "
-               "is false on parser output as long as F6 (function body block span starts at a token index) stands, which is why the "
+               "is false on parser output as long as D60 (function body block span starts at a token index) stands, which is why the "
                "hover-search theorem is also proved without it (C35_searchI_spec_unconditional). A bare model mismatch is reported as "
                "no-failing-input-found (node ids are more than the property fixes); a wrong declaration or type is a concrete input.",
     technique="Lean 4 theorems (mutual structural induction over nested search trees) about a hand-written model + differential "
